@@ -182,6 +182,19 @@ CLAIMED = {
              "(F9a-g) and are excluded from the delta comparison by syntactic class, each probed on every run.",
         technique="Lean 4 proof (scanner lemmas, kernel-checked complete tables) + three-way lexer correspondence",
         design="§4 C14"),
+    "C17": dict(
+        text="Lean model of the flat node array and of build_header_nodes (skip private zones, stop at the endless zone, "
+             "rebase references by the number of skipped nodes, clear the pub flag) with a refinement theorem: for every module "
+             "laid out as alternating public and private segments at any base offset, the header of the concrete array is the "
+             "layout of the public segments alone (nothing private, references rebased, flags cleared) — all sizes, by induction. "
+             "Tie: the real node array of each generated module is abstracted and fed to the model, whose header must equal the "
+             "real header node for node; plus the header's XML must equal the real parser's XML of the module restricted to its "
+             "public declarations; exhaustive over every interleaving of 5 declaration kinds x pub/private up to 3 (4, 5 sampled).",
+        note="Trusted: Lean kernel, the Debug-dump abstraction of ParseNode (every variant carrying a NodeId is a `ref`), the "
+             "parser's placement of private-zone markers (checked only through the XML metamorphic comparison), harness. The "
+             "unsafe set_len bookkeeping is not modelled (the model is a list, not spare capacity).",
+        technique="Lean 4 proof (refinement to a layout spec) + node-array correspondence + metamorphic XML comparison",
+        design="§4 C17"),
     "C18": dict(
         text="Lean model of the tool's decision logic with theorems: backend = flag, else environment, else config, else "
              "default (`backend_precedence`); exit status 0 iff compilation succeeded and (emit | run with a normally exiting "
